@@ -217,15 +217,35 @@ var lastGC struct {
 	err    bool
 }
 
-func runGCProcess(lj, fresh *gjob) []int64 {
-	base := time.Now()
-	var client *vcfake.Clientset
-	if fresh != nil {
-		client = vcfake.NewSimpleClientset(fresh.build(base.UnixNano()))
-	} else {
-		client = vcfake.NewSimpleClientset()
+// nearExpiry: an eligible copy whose expiry lies within a second of the run
+func nearExpiry(g *gjob) bool {
+	if g == nil || g.ttl == nil || g.finish == nil || g.phase == 0 {
+		return false
 	}
+	e := *g.finish + *g.ttl*sec
+	return e > -sec && e < sec
+}
+
+func runGCProcess(lj, fresh *gjob) []int64 {
+	out := runGCProcessOnce(lj, fresh)
+	// the cases next to the boundary are only meaningful when the call began within 50 ms of the
+	// reference instant; a preempted run is repeated (the model reads the clock "at the run")
+	for try := 0; try < 8 && (nearExpiry(lj) || nearExpiry(fresh)) && lastGC.hi > int64(50*time.Millisecond); try++ {
+		out = runGCProcessOnce(lj, fresh)
+	}
+	return out
+}
+
+func runGCProcessOnce(lj, fresh *gjob) []int64 {
+	// everything that takes time first: the offsets of the case count from [base]
+	client := vcfake.NewSimpleClientset()
 	v := gcc.NewVerifController(client)
+	base := time.Now()
+	if fresh != nil {
+		if err := client.Tracker().Add(fresh.build(base.UnixNano())); err != nil {
+			panic(err)
+		}
+	}
 	if lj != nil {
 		if err := v.AddToLister(lj.build(base.UnixNano())); err != nil {
 			panic(err)
@@ -669,6 +689,7 @@ type server struct {
 	lastGet    string
 	emptyNsGet bool
 	conflicts  [][2]int64 // Create calls answered AlreadyExists: (name, annotated schedule time)
+	jobsBefore map[string]*batchv1.Job // the server's jobs when the current reconcile began
 }
 
 var errInjected = errors.New("injected create failure")
@@ -811,6 +832,12 @@ type obs struct {
 	err                  int64
 	lastAfter            *int64
 	upd                  bool
+	known                []int64 // UIDs of jobs this controller started / adopted / was handed
+	lagged               bool    // the job lister was an older snapshot
+	deleteSig            string  // mechanism that explains a history-limit Delete hitting a job that is not a finished run
+	forbidSig            string  // mechanism that explains a live run next to a start under Forbid ("" = none)
+	lost                 bool    // the status write of this reconcile did not reach the server
+	staleIn              bool    // it started from an explicitly older status
 }
 
 var lastHist struct {
@@ -909,13 +936,43 @@ func runHistory(in []int64) []int64 {
 	lastHist.st, lastHist.obs, lastHist.created, lastHist.stale = st, nil, nil, false
 	// one reconcile: on the persisted status (stIn == nil) or on a given older one; the
 	// write-back follows sync(): only without error, when asked for - and when it is not lost
-	reconcile := func(now int64, fc bool, stIn *batchv1.CronJobStatus, persistOK bool) {
+	// what the controller knows to be its runs: handed in the initial status.active, started or adopted
+	known := map[int64]bool{}
+	noteKnown := func(st *batchv1.CronJobStatus) {
+		for _, a := range st.Active {
+			if o, ok := srv.jobs[a.Name]; ok && o.UID == a.UID {
+				known[parseUID(a.UID)] = true
+			}
+		}
+	}
+	noteKnown(&cj.Status)
+	lostRef, lagDropped := map[int64]bool{}, map[int64]bool{}
+	isLive := func(o *batchv1.Job) bool { j := unbuild(o); return j.owner == 1 && j.phase == 0 }
+	hasRef := func(st *batchv1.CronJobStatus, uid types.UID) bool {
+		for _, a := range st.Active {
+			if a.UID == uid {
+				return true
+			}
+		}
+		return false
+	}
+	reconcile := func(now int64, fc bool, stIn *batchv1.CronJobStatus, lister []mjob, lagged bool, persistOK bool) {
 		srv.now, srv.failCreate = now, fc
 		srv.creates, srv.deletes, srv.viaGet, srv.lastGet, srv.emptyNsGet, srv.conflicts = nil, nil, nil, "", false, nil
-		// the lister shows the API server's jobs
+		// the job lister: the API server's jobs, or - lagging - the snapshot handed in
 		items := []interface{}{}
-		for _, o := range srv.jobs {
-			items = append(items, o.DeepCopy())
+		inLister := map[string]types.UID{}
+		if lagged {
+			for _, j := range lister {
+				o := j.build(cj)
+				items = append(items, o)
+				inLister[o.Name] = o.UID
+			}
+		} else {
+			for _, o := range srv.jobs {
+				items = append(items, o.DeepCopy())
+				inLister[o.Name] = o.UID
+			}
 		}
 		if err := ctl.JobIndexer().Replace(items, ""); err != nil {
 			panic(err)
@@ -930,7 +987,21 @@ func runHistory(in []int64) []int64 {
 		}
 		sort.Slice(mine, func(i, j int) bool { return parseName(mine[i].Name) < parseName(mine[j].Name) })
 		o := obs{spec: encSpec(srv.cj), active: refsOf(&work.Status), jobs: srv.sorted(), now: now,
-			created: created, deadline: srv.cj.Spec.StartingDeadlineSeconds, lenient: lenient}
+			created: created, deadline: srv.cj.Spec.StartingDeadlineSeconds, lenient: lenient,
+			staleIn: stIn != nil, lagged: lagged}
+		for u := range known {
+			o.known = append(o.known, u)
+		}
+		sort.Slice(o.known, func(i, j int) bool { return o.known[i] < o.known[j] })
+		inputStatus := work.Status.DeepCopy()
+		liveBefore := map[string]*batchv1.Job{}
+		srv.jobsBefore = map[string]*batchv1.Job{}
+		for n, j := range srv.jobs {
+			srv.jobsBefore[n] = j.DeepCopy()
+			if isLive(j) {
+				liveBefore[n] = j.DeepCopy()
+			}
+		}
 		if work.Status.LastScheduleTime != nil {
 			o.last = ptr.To(work.Status.LastScheduleTime.UnixNano())
 		}
@@ -945,9 +1016,98 @@ func runHistory(in []int64) []int64 {
 		if serr != nil && rq != nil {
 			panic("error together with a requeue")
 		}
-		if serr == nil && upd && persistOK {
+		persisted := serr == nil && upd && persistOK
+		if persisted {
 			srv.cj.Status = *work.Status.DeepCopy()
 		}
+		o.lost = serr == nil && upd && !persistOK
+		// why a live run of this controller may be missing from the status: its reference was never
+		// written (lost write), or a reconcile whose lister did not show it dropped it as stale
+		for n, j := range srv.jobsBefore {
+			uid := parseUID(j.UID)
+			if unbuild(j).phase != 0 {
+				continue
+			}
+			if hasRef(inputStatus, j.UID) && !hasRef(&work.Status, j.UID) && lagged && inLister[n] != j.UID {
+				if _, still := srv.jobs[n]; still {
+					lagDropped[uid] = true
+				}
+			}
+		}
+		for _, a := range work.Status.Active {
+			if j, ok := srv.jobs[a.Name]; ok && j.UID == a.UID && !hasRef(inputStatus, a.UID) && !persisted {
+				lostRef[parseUID(a.UID)] = true
+			}
+		}
+		// the mechanism behind a start under Forbid next to a live known run (law 122)
+		if srv.cj.Spec.ConcurrencyPolicy == batchv1.ForbidConcurrent && len(srv.creates) > 0 {
+			deleted := map[int64]bool{}
+			for _, d := range srv.deletes {
+				deleted[d] = true
+			}
+			nLive, nLag, nLost := 0, 0, 0
+			for n, j := range srv.jobsBefore {
+				uid := parseUID(j.UID)
+				mj := unbuild(j)
+				referenced := false
+				for _, a := range inputStatus.Active {
+					if a.Name == n && a.UID == j.UID {
+						referenced = true
+					}
+				}
+				// what law 122 counts: an unfinished run this controller knows as its own, or any
+				// unfinished job the status it started from references
+				if mj.phase != 0 || deleted[parseName(n)] || !((mj.owner == 1 && known[uid]) || referenced) {
+					continue
+				}
+				nLive++
+				switch {
+				case lagDropped[uid] || (lagged && inLister[n] != j.UID && hasRef(inputStatus, j.UID)):
+					nLag++
+				case lostRef[uid] || (stIn != nil && !hasRef(inputStatus, j.UID) && hasRef(&srv.cj.Status, j.UID)):
+					nLost++
+				}
+			}
+			switch {
+			case nLive > 0 && nLag == nLive:
+				o.forbidSig = "C18/forbid-job-lister-lag"
+			case nLive > 0 && nLag+nLost == nLive:
+				o.forbidSig = "C18/lost-status-write"
+			}
+		}
+		// a history-limit Delete (by NAME, no UID precondition) that hit something else than a finished
+		// run of this CronJob: explained by lister lag only when the lister showed ANOTHER job under
+		// that name (deleted and re-created since) or showed this one in a finished phase
+		{
+			nBad, nLag := 0, 0
+			for i, d := range srv.deletes {
+				if srv.viaGet[i] != 0 {
+					continue
+				}
+				var before *mjob
+				for k := range o.jobs {
+					if o.jobs[k].name == d {
+						before = &o.jobs[k]
+					}
+				}
+				if before == nil || (before.owner == 1 && before.phase != 0) {
+					continue
+				}
+				nBad++
+				if lagged {
+					for _, lj := range lister {
+						if lj.name == d && (lj.uid != before.uid || lj.phase != 0) {
+							nLag++
+							break
+						}
+					}
+				}
+			}
+			if nBad > 0 && nBad == nLag {
+				o.deleteSig = "C18/forbid-job-lister-lag"
+			}
+		}
+		noteKnown(&work.Status)
 		var rqp *int64
 		if rq != nil {
 			rqp = ptr.To(rq.Nanoseconds())
@@ -974,7 +1134,7 @@ func runHistory(in []int64) []int64 {
 			if r.bad {
 				return badInput
 			}
-			reconcile(now, fc, nil, true)
+			reconcile(now, fc, nil, nil, false, true)
 		case 6:
 			stIn := r.status()
 			ok := r.b()
@@ -984,7 +1144,7 @@ func runHistory(in []int64) []int64 {
 				return badInput
 			}
 			lastHist.stale = true
-			reconcile(now, fc, &stIn, ok)
+			reconcile(now, fc, &stIn, nil, false, ok)
 		case 9:
 			now := r.z()
 			fc := r.b()
@@ -992,7 +1152,26 @@ func runHistory(in []int64) []int64 {
 				return badInput
 			}
 			lastHist.stale = true
-			reconcile(now, fc, nil, false)
+			reconcile(now, fc, nil, nil, false, false)
+		case 10:
+			var stIn *batchv1.CronJobStatus
+			if r.z() != 0 {
+				st := r.status()
+				stIn = &st
+			}
+			nl := r.n()
+			lister := []mjob{}
+			for i := 0; i < nl; i++ {
+				lister = append(lister, r.job())
+			}
+			ok := r.b()
+			now := r.z()
+			fc := r.b()
+			if r.bad {
+				return badInput
+			}
+			lastHist.stale = true
+			reconcile(now, fc, stIn, lister, true, ok)
 		case 7:
 			d := r.optZ()
 			if d != nil && *d < 0 {
@@ -1264,13 +1443,45 @@ func laws(sel int, in, got []int64, law func(lsel int, lin []int64, sig string))
 			l = append(l, vh.B(o.lenient), o.err)
 			l = append(l, eOpt(o.lastAfter)...)
 			l = append(l, vh.B(o.upd))
+			l = append(l, vh.B(o.lagged))
+			l = append(l, encList(o.known)...)
 			law(121, l, "")
+			// history limits delete only finished runs, on the API server's jobs
+			law(123, l, o.deleteSig)
+			// Forbid in the live-run form, on the API server's jobs; a failure is signed only when
+			// every live run next to the start is explained by the mechanism of a known finding
+			law(122, l, o.forbidSig)
 		}
-		// "each scheduled time starts at most one job" over the whole history - at full strength also
-		// when a reconcile ran on an older status or lost its status write; a failure in that class
-		// is the known finding C18/lost-status-write
+		// "each scheduled time starts at most one job" over the whole history, at full strength.  A
+		// failure is signed as the known finding only when EVERY offending pair (an earlier start
+		// t_i, a later start t_j <= t_i) shows its mechanism: the reconcile of t_j ran on a status
+		// that did not record t_i, because the write-back of t_i's reconcile was lost or because it
+		// read an explicitly older status
 		sig := ""
-		if lastHist.stale {
+		type start struct {
+			t           int64
+			last        *int64
+			lost, stale bool
+		}
+		starts := []start{}
+		for _, o := range lastHist.obs {
+			for _, c := range o.creates {
+				starts = append(starts, start{c[1], o.last, o.lost, o.staleIn})
+			}
+		}
+		bad, explained := 0, 0
+		for j := range starts {
+			for i := 0; i < j; i++ {
+				if starts[j].t <= starts[i].t {
+					bad++
+					unrecorded := starts[j].last == nil || *starts[j].last < starts[i].t
+					if unrecorded && (starts[i].lost || starts[j].stale) {
+						explained++
+					}
+				}
+			}
+		}
+		if bad > 0 && bad == explained {
 			sig = "C18/lost-status-write"
 		}
 		law(120, encList(lastHist.created), sig)
